@@ -330,6 +330,7 @@ func (in *Interp) chanSend(g *goroutine, chv value, v value) {
 	if !offer.taken && ch.closed {
 		panic(targetPanic{v: "send on closed channel"})
 	}
+	in.preemptPoint(g)
 }
 
 func (in *Interp) chanTake(ch *schan) (value, bool) {
@@ -367,6 +368,7 @@ func (in *Interp) chanRecv(g *goroutine, chv value, commaOk bool, elem types.Typ
 		in.block(g, fmt.Sprintf("chan receive (chan %d)", ch.id), ch.canRecv)
 	}
 	v, ok := in.chanTake(ch)
+	in.preemptPoint(g) // after the operation: the partner goroutine is runnable too
 	if commaOk {
 		return tuple{v, ok}
 	}
@@ -449,6 +451,9 @@ func (in *Interp) selectStmt(g *goroutine, instr *ssa.Select, fr *frame) value {
 		} else {
 			recvVal, recvOk = in.chanTake(s.ch)
 		}
+	}
+	if chosen >= 0 {
+		in.preemptPoint(g)
 	}
 	res := tuple{chosen, recvOk}
 	for i, s := range instr.States {
